@@ -241,6 +241,34 @@ def run_case(spec):
                 local_wps = {}
                 if not S.exited:
                     check(r, 'after-restart')
+        # ---- epilogue: let the program run to its end and start it again: watchpoints on globals / raw addresses stay
+        #      active and must be armed in the new process (on every thread that appears)
+        if not v.violations and not restarted_after_exit and any(kk != 'local-expr' for (a, s_, c, kk) in model.values()) and rng.random() < 0.7:
+            for bp in (S.w.cmd('bps').get('ok') or []):
+                S.w.cmd('remove_num', num=bp['num'])
+            guard = 0
+            while not S.exited and guard < 30:
+                guard += 1
+                r = S.cmd('cont', timeout=TMO)
+                for e in r.get('ev', []):
+                    if e.get('ev') == 'watchpoint' and e.get('end_of_scope'):
+                        model.pop(e['num'], None)
+                        local_wps.pop(e['num'], None)
+                if 'ok' not in r:
+                    break
+            if S.exited:
+                for num in [n_ for n_, (a, s_, c, kk) in model.items() if kk == 'local-expr']:
+                    model.pop(num)
+                local_wps = {}
+                ops.append('run-to-exit, restart')
+                S.cmd('break_line', file=P.src, line=P.side['site_line'], mon=False)
+                r = S.cmd('restart', timeout=TMO)
+                if 'ok' in r and not S.exited:
+                    v.count('restarts_after_exit')
+                    check(r, 'after-restart-after-exit')
+                    r = S.cmd('cont', timeout=TMO)     # a few more stops: threads created in the new process must inherit the image
+                    if not S.exited:
+                        check(r, 'after-restart-after-exit')
         v.case(signature=('c14', idx, tuple(o.split()[0] + o.split()[1] if len(o.split()) > 1 else o for o in ops[:10])),
                sample=dict(ctx, ops=ops[:30], final_model=sorted(model.values())))
         v.count('histories')
